@@ -38,6 +38,7 @@ def run(ctx):
     p10(ctx, R)
     p11(ctx, R)
     g7(ctx, R)
+    g8(ctx, R)
     t3p(ctx, R)
     # the tree of THIS parse only: every parser attribute a handler writes (incl. result) is re-initialised per parse (rule H2 of C13)
     from .c13 import h2
@@ -68,6 +69,28 @@ def container_writes(ctx, attr, modules):
     return out
 
 
+def _slot_replacement(st):
+    """st removes extra_arguments[K] next to a store arguments[K] = ... of the same key: the slot's tag is being replaced."""
+    key = None
+    for c in ast.walk(st):
+        if isinstance(c, ast.Call) and isinstance(c.func, ast.Attribute) and c.func.attr == "pop" and "extra_arguments" in norm(c.func.value) and c.args:
+            key = norm(c.args[0])
+        if isinstance(c, ast.Delete):
+            for t in c.targets:
+                if isinstance(t, ast.Subscript) and "extra_arguments" in norm(t.value):
+                    key = norm(t.slice)
+    if key is None:
+        return False
+    blk = st._parent
+    while blk is not None and not any(st in getattr(blk, fld, []) for fld in ("body", "orelse", "finalbody")):
+        st, blk = blk, getattr(blk, "_parent", None)
+    if blk is None:
+        return False
+    sibs = next(getattr(blk, fld) for fld in ("body", "orelse", "finalbody") if st in getattr(blk, fld, []))
+    return any(isinstance(x, ast.Assign) and any(isinstance(t, ast.Subscript) and isinstance(t.value, ast.Attribute) and t.value.attr == "arguments"
+                                                 and norm(t.slice) == key for t in x.targets) for x in sibs)
+
+
 def p10(ctx, R):
     ctx.rule("P10", "tree containers: one writer each, append-only")
     spec = {
@@ -83,6 +106,9 @@ def p10(ctx, R):
             label = "%s: %s" % (f.qualname, norm(st)[:60])
             if f.name == "reassign_arguments" and attr == "arguments":
                 ctx.holds("P10", label, "slot move (rule T3')")
+                continue
+            if attr == "extra_arguments" and f is R.check_next_arg and kind in ("call:pop", "setitem") and _slot_replacement(st):
+                ctx.holds("P10", label, "the parameter of a tag that is being replaced in the same slot (rule G8)")
                 continue
             if f.qualname in allowed and kind in allowed[f.qualname]:
                 # append-only forms
@@ -220,6 +246,66 @@ def g7(ctx, R):
                               "that it is still empty: a second value of the same type overwrites the first" % ", ".join(victims), node=st,
                               witness='`addflag "MyFlags" "Big";` parses to a tree that only holds "Big" (pinned as accepted by the suite)')
     ctx.need("G7", "optional-slot stores", k, 1)
+
+
+def g8(ctx, R):
+    """A tag slot can be filled again by a later tag of the same slot (`:count "gt" :is`).  The parameter recorded for the earlier tag
+    lives in another dictionary under the same key: unless it is dropped (or the refill refused) the tree holds `:is` + "gt"."""
+    ctx.rule("G8", "refilling a tag slot discards the parameter recorded for the previous tag of that slot")
+    cna = R.check_next_arg
+    cfg = ctx.cfg(cna)
+    sn = cna.params[0]
+    has_param_slot = [("%s.%s" % (e["name"], s["name"])) for _, e in sorted(R.concrete().items()) for s in e["args_definition"]
+                      if "extra_arg" in s and len(s.get("values") or []) > 1 and s["extra_arg"].get("valid_for")]
+    if not has_param_slot:
+        ctx.holds("G8", "no tag slot mixes tags with and without a parameter")
+        return
+
+    def required_true(fc):
+        e, pol = fact_atom(fc)
+        return pol is True and isinstance(e, ast.Call) and call_name(e) == "get" and e.args and const_value(ctx.program, cna, e.args[0]) == "required"
+    stores = [st for st in walk_no_nested(cna.node) if isinstance(st, ast.Assign) and any(
+        isinstance(t, ast.Subscript) and isinstance(t.value, ast.Attribute) and t.value.attr == "arguments"
+        and isinstance(t.value.value, ast.Name) and t.value.value.id == sn for t in st.targets)]
+    k = 0
+    for st in stores:
+        nodes = cfg.nodes_for(st)
+        if all(cfg.guarded(nd, required_true) for nd in nodes):
+            continue  # required slots are filled once (the position advances)
+        k += 1
+        key = norm([t for t in st.targets if isinstance(t, ast.Subscript)][0].slice)
+
+        def drops(m):
+            if m.kind != "stmt":
+                return False
+            for c in ast.walk(m.ast):
+                if isinstance(c, ast.Call) and isinstance(c.func, ast.Attribute) and c.func.attr == "pop" and "extra_arguments" in norm(c.func.value) \
+                        and c.args and norm(c.args[0]) == key:
+                    return True
+                if isinstance(c, ast.Delete) and any("extra_arguments" in norm(t) and key in norm(t) for t in c.targets):
+                    return True
+            return False
+
+        def not_filled(fc):
+            e, pol = fact_atom(fc)
+            cp = cmp_parts(e)
+            return bool(cp and cp[1] in ("In", "NotIn") and "arguments" in norm(cp[2]) and "extra" not in norm(cp[2]) and norm(cp[0]) == key
+                        and ((cp[1] == "NotIn") == pol))
+        def no_param(fc):
+            e, pol = fact_atom(fc)
+            cp = cmp_parts(e)
+            return bool(cp and cp[1] in ("In", "NotIn") and "extra_arguments" in norm(cp[2]) and norm(cp[0]) == key and ((cp[1] == "NotIn") == pol))
+        dropn = [m for m in cfg.stmt_nodes() if drops(m)] + list(cfg.facts(no_param))
+        # either the slot is known to be empty, or the stale parameter is dropped on every path through the store
+        before = all(cfg.guarded(nd, not_filled, establish=lambda m: m in dropn) for nd in nodes)
+        after = bool(dropn) and all(cfg.exit not in cfg.reach(nd, avoid=dropn, exc=False) for nd in nodes)
+        if before or after:
+            ctx.holds("G8", "%s: the previous tag's parameter is discarded when the slot is filled again" % cna.qualname)
+        else:
+            ctx.violation("G8", cna, "stale-tag-parameter", "a tag slot (%s) can be filled a second time while the parameter recorded for the first "
+                          "tag stays in extra_arguments: the tree then pairs the new tag with the old parameter" % ", ".join(has_param_slot[:4]),
+                          node=st, witness='`header :count "gt" :is "a" "b"` is accepted, prints as `header :is "gt" "a" "b"` and that text is rejected')
+    ctx.need("G8", "optional-slot stores", k, 1)
 
 
 def t3p(ctx, R):
